@@ -253,6 +253,12 @@ type Tokenizer struct {
 	dialect    keywords.SQLDialect // SQL dialect for dialect-specific keyword recognition
 	logger     *slog.Logger        // Optional structured logger for verbose tracing
 	Comments   []models.Comment    // Comments captured during tokenization
+
+	// customKeywords records that keywords/dialect differ from what New()
+	// installs (NewWithDialect, NewWithKeywords, SetDialect). PutTokenizer
+	// restores the defaults so the next pool user gets a tokenizer that
+	// behaves like a new one.
+	customKeywords bool
 }
 
 // New creates a new Tokenizer with default configuration and keyword support.
@@ -289,10 +295,11 @@ func NewWithDialect(dialect keywords.SQLDialect) (*Tokenizer, error) {
 	}
 	kw := keywords.New(dialect, true)
 	return &Tokenizer{
-		keywords:   kw,
-		dialect:    dialect,
-		pos:        NewPosition(1, 0),
-		lineStarts: []int{0},
+		keywords:       kw,
+		dialect:        dialect,
+		pos:            NewPosition(1, 0),
+		lineStarts:     []int{0},
+		customKeywords: true,
 	}, nil
 }
 
@@ -309,6 +316,7 @@ func (t *Tokenizer) SetDialect(dialect keywords.SQLDialect) {
 	}
 	t.dialect = dialect
 	t.keywords = keywords.New(dialect, true)
+	t.customKeywords = true
 }
 
 // NewWithKeywords initializes a Tokenizer with a custom keyword classifier.
@@ -333,9 +341,10 @@ func NewWithKeywords(kw *keywords.Keywords) (*Tokenizer, error) {
 	}
 
 	return &Tokenizer{
-		keywords:   kw,
-		pos:        NewPosition(1, 0),
-		lineStarts: []int{0},
+		keywords:       kw,
+		pos:            NewPosition(1, 0),
+		lineStarts:     []int{0},
+		customKeywords: true,
 	}, nil
 }
 
